@@ -182,6 +182,19 @@ func genMyFwCase(t *rapid.T) MyFwCase {
 		force := i > 0 && c.Steps[i-1].Kind == "event" && chance(t, fmt.Sprintf("s%d.after-event", i), 60)
 		c.Steps = append(c.Steps, genMyFwStep(t, npool, fmt.Sprintf("s%d", i), force))
 	}
+	if chance(t, "tail", 30) {
+		// a history aimed at what the proxy remembers about prepares across other commands: two prepares that are not
+		// executed (which of them the firewall rejects depends on the configuration), a statement, and the execution
+		// of "the statement prepared last"
+		prep := func(label string) MyFwStep {
+			return MyFwStep{Kind: "stmt", Stmt: MyStmt{From: rapid.IntRange(0, npool-1).Draw(t, label+".from")}, DB: "ok"}
+		}
+		c.Steps = append(c.Steps, prep("tail.p0"), prep("tail.p1"))
+		for i, n := 0, rapid.IntRange(1, 2).Draw(t, "tail.nq"); i < n; i++ {
+			c.Steps = append(c.Steps, MyFwStep{Kind: "query", Stmt: MyStmt{From: rapid.IntRange(0, npool-1).Draw(t, fmt.Sprintf("tail.q%d.from", i))}, DB: genMyAnswer(t, fmt.Sprintf("tail.q%d.db", i))})
+		}
+		c.Steps = append(c.Steps, MyFwStep{Kind: "event", Event: "execute-direct", DB: genMyAnswer(t, "tail.db"), Pick: rapid.IntRange(0, 7).Draw(t, "tail.pick")})
+	}
 	return c
 }
 
@@ -1197,6 +1210,12 @@ func runMyFwSession(c MyFwCase) (res myFwResult) {
 		return do(myExchange{what: what, payload: e.Encode(), read: "result-binary", behave: behave, text: text, either: either})
 	}
 
+	// executeRejected: an execution that stands for a statement the firewall rejected (direct execution after a rejected prepare)
+	executeRejected := func(id uint32, nparams int, behave, what, text string) (string, *myReply) {
+		e := mysess.Execute{StmtID: id, NewParams: true, Params: myParams(nparams)}
+		return do(myExchange{what: what, payload: e.Encode(), read: "result-binary", behave: behave, text: text, rejected: true})
+	}
+
 	// COM_CHANGE_USER answered with an authentication switch request: the client's next packet is authentication
 	// data, not a command
 	changeUserSwitch := func(st MyFwStep, payload []byte) {
@@ -1298,7 +1317,14 @@ func runMyFwSession(c MyFwCase) (res myFwResult) {
 						class("direct:placeholder-count-ambiguous (not sent)")
 						break
 					}
-					execute(myDirectStmtID, n, true, st.Execs[0], "execute-direct", text, true)
+					if out == "rejected" {
+						// for the client the COM_STMT_PREPARE failed: MariaDB runs id -1 only "if no COM_STMT_PREPARE has failed
+						// since", so the execution of the rejected statement is answered with an error and nothing is forwarded
+						// (what the database would run instead - the statement prepared before - is not what the client asked for)
+						executeRejected(myDirectStmtID, n, st.Execs[0], "execute-direct", text)
+					} else {
+						execute(myDirectStmtID, n, true, st.Execs[0], "execute-direct", text, true)
+					}
 				} else if out == "rejected" && len(live) > 0 {
 					// the statements prepared before are still there
 					lv := live[modIdx(st.Stmt.From+si, len(live))]
@@ -1452,7 +1478,12 @@ func runMyFwSession(c MyFwCase) (res myFwResult) {
 				if lastPrepRejected {
 					class("seq:rejected-prepare-then-execute-direct")
 				}
-				execute(myDirectStmtID, n, true, st.DB, "execute-direct", lastPrepText, lastPrepRejected)
+				if lastPrepRejected {
+					// whatever commands came in between: the client's last COM_STMT_PREPARE failed (see above)
+					executeRejected(myDirectStmtID, n, st.DB, "execute-direct", lastPrepText)
+				} else {
+					execute(myDirectStmtID, n, true, st.DB, "execute-direct", lastPrepText, false)
+				}
 			case "execute-old":
 				if len(live) == 0 {
 					class("execute-old:nothing-prepared")
